@@ -443,4 +443,84 @@ def notifyPurgeInLoop (alive : Nat → Bool) : List Nat → List Nat
       | [] => []
       | _ :: rest' => notifyPurgeInLoop alive rest'
 
+/-! ## polarisation (`set_polarization` of the four profile classes, `LaserProfile.get_polarization`,
+raysect `Vector3D.normalise`, `ConstantVector3D`) -/
+
+section Polarisation
+variable {α : Type} [Add α] [Sub α] [Mul α] [Div α] [Neg α] [Zero α] [One α] [OfScientific α] [NatCast α]
+  [LT α] [LE α] [DecidableLT α] [DecidableLE α] [BEq α]
+
+structure V3 (α : Type) where
+  x : α
+  y : α
+  z : α
+
+def normSq (v : V3 α) : α := v.x * v.x + v.y * v.y + v.z * v.z
+
+/-- `Vector3D.normalise`: `t = x*x + y*y + z*z; if t == 0.0: raise ZeroDivisionError; t = 1.0 / sqrt(t);
+return (x*t, y*t, z*t)`  (`t == 0.0` written with the two order tests, which agree with it on floats, NaN included) -/
+def normalise (E : Ext α) (v : V3 α) : Option (V3 α) :=
+  let t := normSq v
+  if t ≤ 0 ∧ 0 ≤ t then none
+  else
+    let s := 1 / E.sqrt t
+    some { x := v.x * s, y := v.y * s, z := v.z * s }
+
+/-- a profile object together with the constant its `_polarization3d` function returns (`none`: not assigned yet) -/
+structure PObj (α : Type) where
+  obj : Obj α
+  pol : Option (V3 α)
+
+inductive PRes where
+  | ok | valueError | zeroDivision | noSuchSetter | notUnderstood
+  deriving DecidableEq, Repr
+
+def PRes.ofRes : Res → PRes
+  | .ok => .ok | .valueError => .valueError | .noSuchSetter => .noSuchSetter | .notUnderstood => .notUnderstood
+
+/-- `set_polarization(value)`: `value = value.normalise(); self.set_polarization_function(ConstantVector3D(value))` —
+nothing else is written, the notifier is not called -/
+def setPolarization (E : Ext α) (o : PObj α) (v : V3 α) : PObj α × PRes :=
+  match normalise E v with
+  | none => (o, .zeroDivision)
+  | some u => ({ o with pol := some u }, .ok)
+
+/-- `get_polarization(x, y, z)`: `self._polarization3d(x, y, z)`, a `ConstantVector3D` -/
+def getPolarization (o : PObj α) (_x _y _z : α) : Option (V3 α) := o.pol
+
+inductive POp (α : Type) where
+  | set (prop : String) (v : α)      -- `obj.prop = v`
+  | pol (v : V3 α)                   -- `obj.set_polarization(v)`
+
+def pstep (E : Ext α) (t : Cls) (o : PObj α) : POp α → PObj α × PRes
+  | .set p v => ({ o with obj := (setProp E t o.obj p v).1 }, PRes.ofRes (setProp E t o.obj p v).2)
+  | .pol v => setPolarization E o v
+
+def prunOps (E : Ext α) (t : Cls) (o : PObj α) : List (POp α) → PObj α
+  | [] => o
+  | op :: rest => prunOps E t (pstep E t o op).1 rest
+
+/-- the constructor statement the translator reports as `CtorOp.other` at its position in `__init__` -/
+def polCall : String := "self.set_polarization(polarization)"
+
+def pctorStep (E : Ext α) (t : Cls) (args : String → α) (pol : V3 α) (o : PObj α) (op : CtorOp) : PObj α × PRes :=
+  if op = CtorOp.other polCall then setPolarization E o pol
+  else ({ o with obj := (ctorStep E t args o.obj op).1 }, PRes.ofRes (ctorStep E t args o.obj op).2)
+
+/-- `Cls(**args, polarization=pol)`: the generated constructor list with the polarisation calls executed where they
+stand (so a zero vector and an invalid parameter raise in the order of the source) -/
+def prunCtorFrom (E : Ext α) (t : Cls) (args : String → α) (pol : V3 α) (o : PObj α) : List CtorOp → PObj α × PRes
+  | [] => (o, .ok)
+  | op :: rest =>
+    match pctorStep E t args pol o op with
+    | (o', .ok) => prunCtorFrom E t args pol o' rest
+    | r => r
+
+def prunCtor (E : Ext α) (t : Cls) (args : String → α) (pol : V3 α) : PObj α × PRes :=
+  prunCtorFrom E t args pol { obj := blank, pol := none } t.ctor
+
+/-- does the constructor call `set_polarization` -/
+def polCtorB (t : Cls) : Bool := t.ctor.any fun op => decide (op = CtorOp.other polCall)
+end Polarisation
+
 end Cherab.Laser
